@@ -35,7 +35,7 @@ pub const STD_FB: &[&str] = &[
 
 /// words of `TEXTUAL` that are ordinary identifiers outside the one construct that mentions them
 /// (the pinned tree accepts each as variable, element, parameter, type and POU name)
-pub const CONTEXTUAL_NAMES: &[&str] = &["Interval", "Priority", "Single", "Overlap", "ms", "us", "ns", "d", "h", "m", "s"];
+pub const CONTEXTUAL_NAMES: &[&str] = &["Interval", "Priority", "Single", "Overlap", "ms", "us", "ns", "d", "h", "m", "s", "R", "N", "L", "P", "SD", "DS", "SL", "P0", "P1", "T", "E"];
 
 pub fn is_reserved(name: &str) -> bool {
     let u = name.to_ascii_uppercase();
